@@ -11,7 +11,10 @@ Init == l = 1 /\ drift = 0 /\ nRel = 0
 
 Step ==
     /\ l <= Len(Trace)
-    /\ LET e == Trace[l] c == e.case feed == e.feed rel == e.relation
+    /\ LET e == Trace[l] c == e.case rel == e.relation
+           (* members written as zero-byte files (not even a header) hold no table: where a parser accepts such an *)
+           (* archive at all, its result is judged as that of the archive without them                            *)
+           feed == [f \in DOMAIN e.feed \ Range(e.empty) |-> e.feed[f]]
            Runs == DOMAIN e.runs
            Ok(k) == e.runs[k].err = ""
            All(P(_)) == \A k \in Runs : Ok(k) => P(e.runs[k])
@@ -49,7 +52,7 @@ Step ==
        /\ Check("relation-base-parses", c, l, (rel # "" /\ rel # "C01.wellformed" /\ Len(e.baseRun) = 1) => (e.baseRun[1].err = "" /\ Ok(1)))
        (* not a clause of any listed property: error exactly when a required file is missing; counted as drift *)
        /\ drift' = drift + (IF Ok(1) /\ e.runs[1].res = Result(ParseFeed(feed, e.opts.inherit)) THEN 0 ELSE IF Ok(1) THEN 1 ELSE 0)
-                         + (IF ((Outcome(feed) = "result") /\ e.empty = <<>>) = Ok(1) THEN 0 ELSE 1)
+                         + (IF ((Outcome(e.feed) = "result") /\ e.empty = <<>>) = Ok(1) THEN 0 ELSE 1)
                          (* row level: the rows the static.accept hook reported are the rows the model accepts *)
                          + (IF Ok(1) /\ e.runs[1].accepted # ModelAccepted(feed, e.opts.inherit) THEN 1 ELSE 0)
     /\ nRel' = nRel + (IF Trace[l].relation \in {"C08.permutation", "C09.inert", "C10.equal", "C10.inherit"}
